@@ -6,15 +6,17 @@
 //! rank / the independent cycles of (a) that edge list and (b) the table compiled into the driver
 //! (`Rfsm.Gen.LockSites.edges`, the one the theorems of `Rfsm.Props.C17` are about).  The two must
 //! agree (else: disagreement).  Every independent cycle is an oracle failure `C17:cycle:<cycle>`.
-//! The Lean counterexample schedules are replayed on the compiled model.
+//! The schedules of `Rfsm.Props.C17` are replayed on the compiled model.
 //!
 //! Dynamic part (harness feature `hooks`, needs the `Verif_Hooks` mutex in the crate): seeded
 //! multi-session stress scenarios on one executor (concurrent starts, invoke, cross-session send,
 //! delayed sends, cancel, shutdown).  Every acquisition recorded by the instrumented mutex must be at
 //! a site of the table, with the held classes the table allows there, and every (held, acquired) pair
 //! must be an instance of an edge of the Lean table (else: disagreement = the table is incomplete).
-//! The wait-for-graph detector and a watchdog report real deadlocks (`C17:deadlock:<cycle>`); for each
-//! predicted cycle a scenario with delay injection tries to confirm it on the real code.
+//! The wait-for-graph detector and a watchdog report real deadlocks (`C17:deadlock:<cycle>`).  Corpus:
+//! the former confirmation scenarios of the repaired cycles `E>P>E` and `G>P>G` (delay injection) and of
+//! the `<send>` re-lock now run as regression scenarios (a deadlock or hang there is an unknown oracle
+//! failure); the remaining cycle `D>D` is still confirmed on the real code (`a[a]`).
 use crate::proto::Model;
 use crate::report::Report;
 use crate::Args;
@@ -281,14 +283,21 @@ fn static_part(args: &Args, model: &mut Model, rep: &mut Report) -> Option<Table
     } else if cyc == "bad-op" {
         rep.disagree(json!({"what": "driver rejected the derived edge list", "edges": arg}));
     }
-    // the Lean counterexample schedules, replayed on the compiled model
-    let start = |sid: u32| format!("aGn.{s};rGn.{s};aE.0;rE.0;aGn.{s};aE.0;aP.0;rP.0;rE.0;rGn.{s}", s = sid);
+    // the schedules of Rfsm.Props.C17, replayed on the compiled model: the shapes before the repairs
+    // (`progStartOld`, `progInvokeOld`) deadlock, the shapes of the code as it is now do not, `D>D` does
+    let start_old = |sid: u32| format!("aGn.{s};rGn.{s};aE.0;rE.0;aGn.{s};aE.0;aP.0;rP.0;rE.0;rGn.{s}", s = sid);
+    let start = |sid: u32| format!("aGn.{s};rGn.{s};aE.0;rE.0;aE.0;rE.0;aGn.{s};aP.0;rP.0;rGn.{s}", s = sid);
     let send = |sid: u32| format!("aG.{s};rG.{s};aP.0;aG.{s};aE.0;rE.0;rG.{s};rP.0", s = sid);
-    let invoke = |sid: u32, c: u32| format!("aG.{};{};rG.{}", sid, start(c), sid);
+    let invoke_old = |sid: u32, c: u32| format!("aG.{};{};rG.{}", sid, start(c), sid);
+    let invoke = |sid: u32, c: u32| format!("aG.{s};rG.{s};{};aG.{s};rG.{s}", start(c), s = sid);
     let cases: Vec<(&str, String, &str, &str, &str)> = vec![
-        ("E>P>E", format!("{}|{}", start(2), send(1)), "0,0,0,0,0,0,1,1,1,1", "0,1", "deadlock"),
-        ("G>P>G", format!("{}|{}", invoke(1, 2), send(1)), "1,1,0,1,0,0,0,0,0,0", "0,1", "deadlock"),
+        ("old-E>P>E", format!("{}|{}", start_old(2), send(1)), "0,0,0,0,0,0,1,1,1,1", "0,1", "deadlock"),
+        ("old-G>P>G", format!("{}|{}", invoke_old(1, 2), send(1)), "1,1,0,1,0,0,0,0,0,0,0", "0,1", "deadlock"),
         ("D>D", "aD.5;aD.5;rD.5;rD.5".to_string(), "0", "0", "deadlock"),
+        // the starter is through its E sections, the sender holds P and G(1) and takes E; the starter goes on
+        ("start-vs-send", format!("{}|{}", start(2), send(1)), "0,0,0,0,0,0,1,1,1,1,1,1,0,1,1,0,0,0", "0,1", "no-deadlock"),
+        // the parent has released G(1) before the child start; the timer holds P and takes G(1), E
+        ("invoke-vs-timer", format!("{}|{}", invoke(1, 2), send(1)), "1,1,0,0,1,0,0,0,0,0,0,0,1,1,1,1,1,0,0,0,0,0", "0,1", "no-deadlock"),
         ("serial", format!("{}|{}", start(2), send(1)), "0,0,0,0,0,0,0,0,0,0,1,1,1,1,1,1,1,1", "0,1", "no-deadlock"),
     ];
     for (name, progs, sched, set, want) in cases {
@@ -306,7 +315,7 @@ fn static_part(args: &Args, model: &mut Model, rep: &mut Report) -> Option<Table
 /// Without the instrumented mutex: a sequential two-session ping/pong and an invoke round trip on
 /// one executor, each step on a watched thread.  It cannot attribute a hang to locks, but a change
 /// that makes the platform block on every start / send / invoke is still seen (`C17:hang:smoke`).
-/// The steps never overlap a session start with a send, so the known cycles cannot bite here.
+/// (The steps never overlap a session start with a send: the run predates the repair of `E>P>E`.)
 #[cfg(not(feature = "hooks"))]
 fn smoke(rep: &mut Report) {
     use rufsm::actions::ActionWrapper;
